@@ -152,7 +152,7 @@ pub enum Op {
     Close(Option<CloseFrame>),
     CanRead,
     CanWrite,
-    SetBuf(usize, usize),
+    SetBuf(usize, usize, Option<usize>),
     /// set_config(max_message_size, max_frame_size, accept_unmasked_frames) — not in the model (impl-only cases)
     SetLimits(Option<usize>, Option<usize>, bool),
 }
@@ -185,7 +185,9 @@ pub fn op_of(s: &str) -> Result<Op, String> {
         }
         ["c", "-"] => Op::Close(None),
         ["c", c, h] => Op::Close(close_of(c, h)?),
-        ["sb", a, b] => Op::SetBuf(a.parse().unwrap(), parse_usize_or_inf(b)),
+        ["sb", a, b] => Op::SetBuf(a.parse().unwrap(), parse_usize_or_inf(b), None),
+        // sb:<wbs>:<max>:<rbs> also changes read_buffer_size (not in the model: it only sizes an allocation)
+        ["sb", a, b, r] | ["sn", a, b, r] => Op::SetBuf(a.parse().unwrap(), parse_usize_or_inf(b), Some(r.parse().unwrap())),
         ["sl", a, b, c] => Op::SetLimits(opt_usize(a), opt_usize(b), *c == "1"),
         _ => return Err(format!("bad op {s}")),
     })
@@ -243,10 +245,13 @@ pub fn run_ops_on(ws: &mut WebSocket<Script>, ops: Vec<Op>, mut upto: usize, out
             },
             Op::CanRead => format!("{}", ws.can_read()),
             Op::CanWrite => format!("{}", ws.can_write()),
-            Op::SetBuf(a, b) => {
+            Op::SetBuf(a, b, r) => {
                 ws.set_config(|c| {
                     c.write_buffer_size = a;
                     c.max_write_buffer_size = b;
+                    if let Some(r) = r {
+                        c.read_buffer_size = r;
+                    }
                 });
                 "ok".into()
             }
@@ -371,13 +376,18 @@ fn run_closecode(f: &[&str]) -> String {
 }
 
 fn run_header_parse(f: &[&str]) -> String {
-    let b = unhex(f[2]);
+    // optional 4th field: the header starts `off` bytes into the cursor (bytes before it were consumed by an earlier parse);
+    // positions are reported relative to that start, so the answer must not depend on `off`
+    let off: u64 = if f.len() > 3 { f[3].parse().unwrap() } else { 0 };
+    let mut b = vec![0x5au8; off as usize];
+    b.extend_from_slice(&unhex(f[2]));
     let mut cur = std::io::Cursor::new(&b);
+    cur.set_position(off);
     match FrameHeader::parse(&mut cur) {
-        Ok(Some((h, len))) => format!("ok:{}:{}:{}", header_s(&h), len, cur.position()),
+        Ok(Some((h, len))) => format!("ok:{}:{}:{}", header_s(&h), len, cur.position() as i64 - off as i64),
         Ok(None) => {
-            if cur.position() != 0 {
-                format!("inc-consumed:{}", cur.position())
+            if cur.position() != off {
+                format!("inc-consumed:{}", cur.position() as i64 - off as i64)
             } else {
                 "inc".into()
             }
@@ -462,7 +472,11 @@ fn run_mask(f: &[&str]) -> Result<String, String> {
     } else if let Some(k) = route.strip_prefix("rd") {
         // server read path: k bytes of unmasked frame consumed before, then the masked frame whose
         // wire payload is `payload`; the message returned is payload XOR key
-        let k: usize = k.parse().unwrap();
+        // rd<k>[c<cut>]: optionally the transport delivers the masked frame in two reads, cut `cut` bytes into it
+        let (k, cut): (usize, Option<usize>) = match k.split_once('c') {
+            Some((a, b)) => (a.parse().unwrap(), Some(b.parse().unwrap())),
+            None => (k.parse().unwrap(), None),
+        };
         let mut wire = Vec::new();
         if k >= 2 {
             Frame::message(vec![0x11u8; k - 2], OpCode::Data(Data::Binary), true)
@@ -471,7 +485,12 @@ fn run_mask(f: &[&str]) -> Result<String, String> {
         }
         h.format(payload.len() as u64, &mut wire).unwrap();
         wire.extend_from_slice(&payload);
-        let script = Script::parse(&[&format!("d:{}", hex(&wire))], &[], &[])?;
+        let chunks: Vec<String> = match cut {
+            Some(c) if k + c > 0 && k + c < wire.len() => vec![format!("d:{}", hex(&wire[..k + c])), format!("d:{}", hex(&wire[k + c..]))],
+            _ => vec![format!("d:{}", hex(&wire))],
+        };
+        let chunk_refs: Vec<&str> = chunks.iter().map(|s| s.as_str()).collect();
+        let script = Script::parse(&chunk_refs, &[], &[])?;
         let cfg = WebSocketConfig::default().accept_unmasked_frames(true);
         let mut ws = WebSocket::from_raw_socket(script, Role::Server, Some(cfg));
         if k >= 2 {
